@@ -272,5 +272,10 @@ func main() {
 	run.Require("suffixes_starting_in_round>0", 50)
 	run.Require("cases_with_crashes", 20)
 	run.Require("split_locks_staged", 20)
+	if n := run.Get("runs_aborted_by_panic"); n > 0 {
+		// a case that ended in a panic of the code under test was not judged: never a silent pass
+		// (what a peer can make a node panic with is C08's subject; the sites are in the evidence)
+		run.Inconclusive(fmt.Sprintf("%d cases were aborted by a panic of the code under test and could not be judged (distinct sites: evidence, set panic_sites)", n))
+	}
 	os.Exit(run.Finish())
 }
